@@ -54,6 +54,10 @@ PREFIXES = [
     ("spaced+zid", f"-  {PRIMARY} "), ("spaced-prio+zid", f"o P2  {PRIMARY} "),
     # a new item (no ZID yet) whose FIRST word is the first target ("\x01": no leading 'see')
     ("note-direct", "- \x01"), ("prio-direct", "o P1 \x01"), ("dated-direct", "x 240601 \x01"),
+    # a new item whose first BODY word is made of kind characters or of punctuation only: it is a word,
+    # so a bare ZID right after it is a reference (a target), not the item's own ZID
+    ("note+ox", "- ox \x01"), ("note+<>", "- <> \x01"), ("note+dots", "- ... \x01"), ("todo+x~", "o P1 x~ \x01"),
+    ("note+colon", "- : \x01"),
 ]
 WRAPPERS = ["bare", "trail", "paren", "quote", "iprop"]
 
